@@ -230,6 +230,12 @@ pub fn gen(prop: &str, seed: u64, index: u64, _tier: Tier) -> Case {
             p.add_file(&g, B(d));
         }
     }
+    // 150 KiB of text for the flooding shell
+    let mut flood = String::new();
+    while flood.len() < 150 * 1024 {
+        flood.push_str("flood flood flood flood flood flood flood flood flood flood flood flood\n");
+    }
+    p.add_file("flood.txt", B(flood.into_bytes()));
     let a2 = analyze(&p);
     let inputs = if a2.n() > 0 && rng.chance(1, 3) {
         let s = &a2.sources[rng.below(a2.n())];
@@ -246,7 +252,17 @@ pub fn gen(prop: &str, seed: u64, index: u64, _tier: Tier) -> Case {
         cfg.recursive = rng.chance(2, 3);
         cfg.trailing_newline = rng.chance(2, 3);
         // fuzzed command text is never executed
-        cfg.shell = (*rng.pick(&["echo", "echo", "echo -n", "false", "/nonexistent/shell -c", "echo   "])).to_string();
+        cfg.shell = (*rng.pick(&[
+            "echo",
+            "echo",
+            "echo -n",
+            "false",
+            "/nonexistent/shell -c",
+            "echo   ",
+            // a "shell" that ignores the command and floods stdout (more than a pipe buffer holds)
+            "cat @ROOT@/flood.txt",
+        ]))
+        .to_string();
         let s = rng.next();
         ops.push(Op::Run {
             cfg,
